@@ -56,6 +56,9 @@ def run_case(duration, outcome, tmo, cancel_at):
                 if outcome == "selfcancel":
                     raise asyncio.CancelledError()
                 return ("value", a, b)
+            except asyncio.CancelledError:
+                state["fn_cancelled"] = loop.time()
+                raise
             finally:
                 state["ended"] = loop.time()
 
@@ -67,7 +70,11 @@ def run_case(duration, outcome, tmo, cancel_at):
 
         t = asyncio.ensure_future(caller())
         state["caller_task"] = t
-        if cancel_at is not None and cancel_at != "with-completion":
+        if isinstance(cancel_at, str) and cancel_at.startswith("turns:"):
+            for _ in range(int(cancel_at.split(":")[1])):      # cancel after k event-loop turns (every early suspension point)
+                await asyncio.sleep(0)
+            state["cancel_result"] = (not t.done()) and t.cancel()
+        elif cancel_at is not None and cancel_at != "with-completion":
             await asyncio.sleep(cancel_at)
             state["cancel_result"] = (not t.done()) and t.cancel()
         try:
@@ -83,6 +90,14 @@ def run_case(duration, outcome, tmo, cancel_at):
         return f"caller never finished: {h}"
     if "ended" not in state and "started" in state:
         return "the wrapped function was still running 5s after the call ended"
+    if isinstance(cancel_at, str) and cancel_at.startswith("turns:"):
+        if duration > 0 and state.get("cancel_result") and not (kind == "cancelled-task" or (kind == "exc" and isinstance(val, asyncio.CancelledError))):
+            return f"the caller was cancelled after {cancel_at} loop turns (function still running) but got {(kind, val)}"
+        if duration > 0 and state.get("cancel_result") and "started" in state and outcome != "selfcancel" \
+                and "fn_cancelled" not in state and "first_cancel" not in state:
+            return (f"the caller was cancelled after {cancel_at} loop turns; the function had started and was never cancelled "
+                    f"(it ran on for its full {duration}s with no timeout guard)")
+        return None
     if cancel_at == "with-completion":
         if state.get("cancel_result") and not (kind == "cancelled-task" or (kind == "exc" and isinstance(val, asyncio.CancelledError))):
             return (f"the caller was cancelled while still inside the call (in the loop iteration in which the function "
@@ -125,7 +140,7 @@ def search():
     for outcome in OUTCOMES:
         for duration in (0.0, 0.5, 1.0, 2.0):
             for tmo in (0.5, 1.0, 3.0):
-                for cancel_at in (None, 0.0, 0.25, 0.75, 1.5, 9.0, "with-completion"):
+                for cancel_at in (None, 0.0, 0.25, 0.75, 1.5, 9.0, "with-completion", "turns:0", "turns:1", "turns:2", "turns:3"):
                     n += 1
                     p = run_case(duration, outcome, tmo, cancel_at)
                     if p:
